@@ -14,26 +14,20 @@ Theorem varoffset_rowmajor : forall m c, length c = length (m_shape m) ->
 Proof. exact varoffset_rowmajor_lemma. Qed.
 Print Assumptions varoffset_rowmajor.
 
-(** NCvario's decomposition into maximal contiguous runs.  For every rank and shape [pre ++ dk :: post], every
-    start/edges whose trailing dimensions [post] are taken whole (start 0, edge = extent -- the situation in
-    which NCvcmaxcontig returns the pointer to dimension k = length pre) and ANY start sk / edge ek at dimension
-    k and ANY leading start/edges: issuing, at every position p of the ripple counter over the leading
-    dimensions, one transfer of ek * prod post elements at p ++ [sk; 0..0] touches exactly the linear indices
-    of the slab's cells, in row-major order.  (Offsets are m_esz times these indices by varoffset_rowmajor.)
-    PARTIAL: the full statement "for all in-range start/edges, vario_plan m start edges = Some (ps, n) ->
-    flat_map (block m n) ps = map (varoffset m) (slab_cells start (ones start) edges)" additionally needs the
-    lemma  vcmaxcontig m start edges = Some k -> (forall i > k, edges_i = shape_i /\ start_i = 0)
-    (from maxcontig_bad_spec / maxcontig_break_spec, proved below as kernels, by induction over the reversed
-    dimension list); it is exercised by the examples below and by the exact transfer-log correspondence. *)
-Theorem vario_plan_correct_partial : forall pre post dk spre sk epre ek,
-  length spre = length pre -> length epre = length pre ->
-  Forall (fun d => 0 <= d) post -> 0 <= ek ->
-  flat_map (fun p => zrange (lin (pre ++ dk :: post) (p ++ sk :: zeros post)) 1 (Z.to_nat (ek * prod post)))
-           (odometer spre epre)
-  = map (lin (pre ++ dk :: post))
-        (slab_cells (spre ++ sk :: zeros post) (ones (spre ++ sk :: zeros post)) (epre ++ ek :: post)).
-Proof. exact vario_blocks_rowmajor_lemma. Qed.
-Print Assumptions vario_plan_correct_partial.
+(** NCvario's decomposition into maximal contiguous runs, at full strength.  For every variable (fixed-size of
+    rank >= 1, or record variable of rank >= 2; the 1-d record variable goes through NCsimplerecio), every
+    non-negative start and EVERY edge vector that NCvcmaxcontig (with its early break) accepts: the element
+    offsets of the (offset, count) transfers issued by the ripple counter, concatenated in issue order, are
+    exactly the offsets of the slab's cells in row-major order.  The proof derives from the regenerated tests
+    that vcmaxcontig = Some k forces the dimensions after k to be taken whole (vcmaxcontig_sound). *)
+Theorem vario_plan_correct : forall m start edges ps n,
+  length start = length (m_shape m) -> length edges = length (m_shape m) ->
+  ((if is_recvar m then 1 else 0) < length (m_shape m))%nat ->
+  Forall (fun o => 0 <= o) start -> Forall (fun d => 0 <= d) (m_shape m) ->
+  vario_plan m start edges = Some (ps, n) ->
+  flat_map (block m n) ps = map (varoffset m) (slab_cells start (ones start) edges).
+Proof. exact vario_plan_correct_lemma. Qed.
+Print Assumptions vario_plan_correct.
 
 (** NCvcmaxcontig's two tests and NCcoordck's bound test, as regenerated from putget.c, mean what the
     decomposition needs: an edge is accepted iff 0 <= edge <= shape - origin, the scan stops at the first
